@@ -23,10 +23,7 @@ import (
 	"testing"
 
 	"github.com/google/martian/v3"
-	"github.com/google/martian/v3/har"
 	mlog "github.com/google/martian/v3/log"
-	"github.com/google/martian/v3/marbl"
-	"github.com/google/martian/v3/martianlog"
 	"github.com/google/martian/v3/messageview"
 	"pgregory.net/rapid"
 
@@ -53,10 +50,14 @@ type Case struct {
 	Decode      bool     `json:"decode,omitempty"`
 	SnapSkip    string   `json:"snap_skip,omitempty"` // "" | all | unless
 	SnapTypes   []string `json:"snap_types,omitempty"`
-	Skip        bool     `json:"skip,omitempty"`    // exchange marked skip-logging
-	Unknown     bool     `json:"unknown,omitempty"` // request only: an upstream modifier made the length unknown (-1)
-	Proxy       bool     `json:"proxy,omitempty"`   // forward with WriteProxy instead of Write
-	Order       []int    `json:"order,omitempty"`   // stack: permutation of 0=har 1=marbl 2=text
+	Skip        bool     `json:"skip,omitempty"` // exchange marked skip-logging before the loggers see anything of it
+	// SkipBetween (responses): the exchange is marked skip-logging after the
+	// loggers handled its request and before they see the response (a request
+	// modifier behind the logger, or a response modifier in front of it)
+	SkipBetween bool  `json:"skip_between,omitempty"`
+	Unknown     bool  `json:"unknown,omitempty"` // request only: an upstream modifier made the length unknown (-1)
+	Proxy       bool  `json:"proxy,omitempty"`   // forward with WriteProxy instead of Write
+	Order       []int `json:"order,omitempty"`   // stack: permutation of 0=har 1=marbl 2=text
 }
 
 // ---------------------------------------------------------------- plumbing
@@ -135,9 +136,19 @@ func (w *countWriter) Write(p []byte) (int, error) {
 			w.ids = map[string]int{}
 		}
 		w.ids[string(p[2:10])]++
+		if p[1] == 2 { // message type: 1 request, 2 response
+			w.ids["res:"+string(p[2:10])]++
+		}
 		w.mu.Unlock()
 	}
 	return len(p), nil
+}
+
+// resFrames is the number of response frames written for the exchange.
+func (w *countWriter) resFrames(id string) int {
+	w.mu.Lock()
+	defer w.mu.Unlock()
+	return w.ids["res:"+id[:8]]
 }
 
 // frames is the number of frames written for the exchange with this context ID.
@@ -145,54 +156,6 @@ func (w *countWriter) frames(id string) int {
 	w.mu.Lock()
 	defer w.mu.Unlock()
 	return w.ids[id[:8]]
-}
-
-type applied struct {
-	name     string
-	err      error
-	recorded func() bool // did the logger record anything for this exchange?
-}
-
-func applyHAR(c Case, t *twin) applied {
-	l := har.NewLogger()
-	l.SetOption(c.Post.Option(true), c.Body.Option(false))
-	var err error
-	if t.res == nil {
-		err = l.ModifyRequest(t.req)
-	} else {
-		// the answered request is logged first so that the response has an entry to attach to
-		if err = l.ModifyRequest(t.req); err == nil {
-			err = l.ModifyResponse(t.res)
-		}
-	}
-	return applied{"har", err, func() bool { return len(l.Export().Log.Entries) > 0 }}
-}
-
-func applyMarbl(c Case, t *twin) applied {
-	w := &countWriter{}
-	mod := marbl.NewModifier(w)
-	var err error
-	if t.res == nil {
-		err = mod.ModifyRequest(t.req)
-	} else {
-		err = mod.ModifyResponse(t.res)
-	}
-	return applied{"marbl", err, func() bool { return atomic.LoadInt64(&w.n) > 0 }}
-}
-
-func applyText(c Case, t *twin) applied {
-	l := martianlog.NewLogger()
-	l.SetHeadersOnly(c.HeadersOnly)
-	l.SetDecode(c.Decode)
-	calls := 0
-	l.SetLogFunc(func(string) { calls++ })
-	var err error
-	if t.res == nil {
-		err = l.ModifyRequest(t.req)
-	} else {
-		err = l.ModifyResponse(t.res)
-	}
-	return applied{"text", err, func() bool { return calls > 0 }}
 }
 
 // ---------------------------------------------------------------- shapes and classes
@@ -385,28 +348,32 @@ func run(c Case) (v kit.Verdict) {
 		sub.ctx.SkipLogging()
 	}
 
-	var logs []applied
-	switch c.Logger {
-	case "har":
-		logs = append(logs, applyHAR(c, sub))
-	case "marbl":
-		logs = append(logs, applyMarbl(c, sub))
-	case "text":
-		logs = append(logs, applyText(c, sub))
-	case "stack":
-		for _, i := range c.Order {
-			switch i {
-			case 0:
-				logs = append(logs, applyHAR(c, sub))
-			case 1:
-				logs = append(logs, applyMarbl(c, sub))
-			case 2:
-				logs = append(logs, applyText(c, sub))
-			}
+	// One instance of each logger. For a response the loggers first handle the
+	// answered request (the exchange has a request phase), then the response.
+	ls := newLogset(c.Post, c.Body, c.HeadersOnly, c.Decode)
+	names := loggerNames(c.Logger, c.Order)
+	note := func(err error) {
+		if err != nil {
+			kit.Note("forward", "a logger returned an error on some generated message (the forwarded bytes are still compared)")
 		}
-	case "snapshot":
+	}
+	if sub.res != nil {
+		for _, name := range names {
+			note(ls.applyReq(name, sub))
+		}
+	}
+	var textBase int64
+	if c.SkipBetween && sub.res != nil {
+		sub.ctx.SkipLogging()
+		textBase = ls.count("text")
+	}
+	for _, name := range names {
+		note(ls.applyMsg(name, sub))
+	}
+	if c.Logger == "snapshot" {
 		v = append(v, snapshot(c, m, sub)...)
 	}
+	skipped := func() kit.Verdict { return skipCheck(c, ls, names, sub, textBase) }
 
 	// forwarded bytes: subject versus unlogged control
 	//
@@ -433,7 +400,7 @@ func run(c Case) (v kit.Verdict) {
 			v.Addf("C15/forward/"+c.Logger+"/request-without-body/reframed-as-chunked",
 				"the logger replaced http.NoBody of a bodyless %s by %T: net/http now has to probe the body and forwards the request with 'Transfer-Encoding: chunked' whenever the probe takes longer than 200 ms (always for POST/PUT/PATCH)", sub.req.Method, sub.req.Body)
 		}
-		return append(v, skipCheck(c, logs)...)
+		return append(v, skipped()...)
 	}
 	want, werr := ctl.write(c.Proxy)
 	got, gerr := sub.write(c.Proxy)
@@ -480,7 +447,7 @@ func run(c Case) (v kit.Verdict) {
 		}
 	}
 
-	v = append(v, skipCheck(c, logs)...)
+	v = append(v, skipped()...)
 	return v
 }
 
@@ -495,14 +462,37 @@ func probed(method string) bool {
 	return false
 }
 
-// skipCheck: an exchange marked skip-logging is recorded by none of the loggers.
-func skipCheck(c Case, logs []applied) (v kit.Verdict) {
-	for _, a := range logs {
-		if c.Skip && a.recorded() {
-			v.Addf("C15/skip-logging/"+a.name+"/recorded", "the exchange is marked skip-logging, yet the %s logger recorded it", a.name)
+// skipCheck: an exchange marked skip-logging is recorded by none of the
+// loggers. What was logged before the mark was set cannot be un-logged: for a
+// mark set between the request and the response phase the claim is that
+// nothing is recorded from then on - no response on the HAR entry, no call of
+// the text logger's sink, no response frame on the marbl stream.
+func skipCheck(c Case, ls *logset, names []string, sub *twin, textBase int64) (v kit.Verdict) {
+	for _, name := range names {
+		if c.Skip && ls.count(name) > 0 {
+			v.Addf("C15/skip-logging/"+name+"/recorded", "the exchange is marked skip-logging, yet the %s logger recorded it", name)
 		}
-		if a.err != nil {
-			kit.Note("forward", "a logger returned an error on some generated message (the forwarded bytes are still compared)")
+		if !c.SkipBetween || c.Skip || sub.res == nil {
+			continue
+		}
+		switch name {
+		case "har":
+			for _, e := range ls.har.Export().Log.Entries {
+				if e.Response != nil {
+					v.Addf("C15/skip-logging/har/response-recorded-after-mark", "the exchange was marked skip-logging after its request was logged, yet the HAR entry has a response (status %d, %d bytes of content)", e.Response.Status, len(e.Response.Content.Text))
+				}
+			}
+		case "text":
+			if n := ls.count("text"); n != textBase {
+				v.Addf("C15/skip-logging/text/response-recorded-after-mark", "the exchange was marked skip-logging after its request was logged, yet the text logger wrote %d more record(s)", n-textBase)
+			}
+		case "marbl":
+			// frames are written by the stream's goroutine: judged by the frames
+			// themselves (message type response, ID of this exchange), of which a
+			// recorded response has at least four
+			if n := ls.mw.resFrames(sub.ctx.ID()); n > 0 {
+				v.Addf("C15/skip-logging/marbl/response-recorded-after-mark", "the exchange was marked skip-logging after its request was logged, yet the marbl stream holds %d response frames for it", n)
+			}
 		}
 	}
 	return v
@@ -679,6 +669,9 @@ func gen(t *rapid.T) Case {
 	}
 	if c.Logger != "snapshot" {
 		c.Skip = rapid.IntRange(0, 3).Draw(t, "skip") == 0
+		if !c.Skip && c.Msg.Response {
+			c.SkipBetween = rapid.IntRange(0, 3).Draw(t, "skip_between") == 0
+		}
 	}
 	if c.Logger == "stack" {
 		c.Order = rapid.Permutation([]int{0, 1, 2}).Draw(t, "order")
@@ -723,6 +716,9 @@ func classes(c Case) []string {
 	if c.Skip {
 		cl = append(cl, "skip-logging")
 	}
+	if c.SkipBetween {
+		cl = append(cl, "skip-logging-between-request-and-response")
+	}
 	if c.Unknown {
 		cl = append(cl, "unknown-length")
 	}
@@ -763,12 +759,12 @@ var propForward = &kit.Prop[Case]{
 	Gates: map[string]float64{
 		"nontrivial": 0.5, "framing-chunked": 0.15, "trailers": 0.04, "encoded": 0.2, "skip-logging": 0.1,
 		"logger-har": 0.1, "logger-marbl": 0.1, "logger-text": 0.1, "logger-snapshot": 0.1, "logger-stack": 0.1,
-		"request": 0.3, "response": 0.3, "body>=4097": 0.15, "bodyless-post": 0.01,
+		"request": 0.3, "response": 0.3, "body>=4097": 0.15, "bodyless-post": 0.01, "skip-logging-between-request-and-response": 0.05,
 	},
 }
 
 var propMatrix = &kit.Prop[Case]{
-	ID: "C15", Name: "matrix", Rule: "ALL combinations of logger x {request, response} x framing (none, Content-Length, chunked, chunked+trailers, close, answer to HEAD, 204) x body size {0, 1, 4097} x {identity, gzip} x skip-logging {off, on} x method {GET, POST}: " + rule,
+	ID: "C15", Name: "matrix", Rule: "ALL combinations of logger x {request, response} x framing (none, Content-Length, chunked, chunked+trailers, close, answer to HEAD, 204) x body size {0, 1, 4097} x {identity, gzip} x skip-logging {off, before the exchange, between request and response phase (responses)} x method {GET, POST}: " + rule,
 	Run: run, NonTrivial: nontrivial, Classes: classes,
 }
 
@@ -823,6 +819,13 @@ func matrix(yield func(Case) bool) {
 						}
 						if !yield(c) {
 							return
+						}
+						if !skip && logger != "snapshot" && size == 1 {
+							// marked after the request phase, before the response phase
+							c.SkipBetween = true
+							if !yield(c) {
+								return
+							}
 						}
 					}
 				}
